@@ -317,11 +317,11 @@ fn double_push_starts() -> Vec<String> {
     v
 }
 
-fn gen_chain(prop: &str, n: usize, rng: &mut StdRng, sink: &mut Sink) {
-    use rand::seq::SliceRandom;
-    use rand::Rng;
-    let ctx = query::Ctx::new();
-    if prop == "C14" {
+/// Scripted repetition games: from the position right after a double step on each file, the knights shuffle
+/// back to the same squares seven times, then the game is walked back with pops (counts must come down as
+/// they went up; the marked start is a different position from the repeated one; more than five
+/// occurrences are perfectly legal for the chain).
+fn emit_scripted_repetitions(prop: &str, sink: &mut Sink) {
         // scripted: from the position right after a double step on each file, shuffle the knights back to the
         // same squares three times; the start (WITH the mark) is a different position from the repeated one
         for f in double_push_starts() {
@@ -338,6 +338,19 @@ fn gen_chain(prop: &str, n: usize, rng: &mut StdRng, sink: &mut Sink) {
                 evs.push(chain::exec(&mut c, &json!({"op": "calc"})));
             }
             evs.push(chain::exec(&mut c, &json!({"op": "set_auto", "filter": "strict"})));
+            evs.push(chain::exec(&mut c, &json!({"op": "clear_outcome"})));
+            // ... two more cycles (sixth and seventh occurrence), then walk back with pops: the counts must
+            // come down exactly as they went up
+            for _ in 0..2 {
+                for t in seq {
+                    evs.push(chain::exec(&mut c, &json!({"op": "push", "like": {"t": "uci", "text": proj::text_json(t)}})));
+                }
+                evs.push(chain::exec(&mut c, &json!({"op": "calc"})));
+            }
+            for _ in 0..12 {
+                evs.push(chain::exec(&mut c, &json!({"op": "pop"})));
+                evs.push(chain::exec(&mut c, &json!({"op": "calc"})));
+            }
             if sink.room() < evs.len() {
                 sink.rotate();
             }
@@ -345,6 +358,14 @@ fn gen_chain(prop: &str, n: usize, rng: &mut StdRng, sink: &mut Sink) {
                 sink.emit(&e);
             }
         }
+}
+
+fn gen_chain(prop: &str, n: usize, rng: &mut StdRng, sink: &mut Sink) {
+    use rand::seq::SliceRandom;
+    use rand::Rng;
+    let ctx = query::Ctx::new();
+    if prop == "C14" {
+        emit_scripted_repetitions(prop, sink);
     }
     if prop == "C17" {
         sink.begin(&json!({"prop": prop, "sweep": "ucilist"}));
@@ -614,6 +635,9 @@ fn gen_misc(prop: &str, n: usize, rng: &mut StdRng, sink: &mut Sink) {
                 }
             }
             println!("CLIMB best_semilegal={}", best);
+            // table lookups driven by a HISTORY: outcome calculation with up to seven occurrences of a position
+            emit_scripted_repetitions(prop, sink);
+            sink.rotate();
             // squares just outside the board in every text position of UCI and SAN moves
             let fch = ['a', 'h', '`', 'i'];
             let rch = ['0', '1', '8', '9'];
